@@ -373,6 +373,123 @@ pub fn count(kind: Kind) -> usize {
 }
 
 // ---------------------------------------------------------------------------
+// frame conditions and the write trap (added for the C16 / C17 suites; purely
+// additive: nothing above or below depends on them unless a harness uses them)
+
+/// Bit numbers naming the architectural register fields of [`Machine`] in
+/// [`Machine::regs_same_except`].
+pub mod field {
+    pub const CR0: u64 = 1 << 0;
+    pub const CR2: u64 = 1 << 1;
+    pub const CR3: u64 = 1 << 2;
+    pub const CR4: u64 = 1 << 3;
+    pub const DR0: u64 = 1 << 4;
+    pub const DR1: u64 = 1 << 5;
+    pub const DR2: u64 = 1 << 6;
+    pub const DR3: u64 = 1 << 7;
+    pub const DR6: u64 = 1 << 8;
+    pub const DR7: u64 = 1 << 9;
+    pub const XCR0: u64 = 1 << 10;
+    /// `msr_index` and `msr_value` (the watched MSR cell)
+    pub const MSR: u64 = 1 << 11;
+    pub const RFLAGS: u64 = 1 << 12;
+    pub const CS: u64 = 1 << 13;
+    pub const SS: u64 = 1 << 14;
+    pub const DS: u64 = 1 << 15;
+    pub const ES: u64 = 1 << 16;
+    pub const FS: u64 = 1 << 17;
+    pub const GS: u64 = 1 << 18;
+    pub const FS_BASE: u64 = 1 << 19;
+    pub const GS_BASE: u64 = 1 << 20;
+    pub const KERNEL_GS_BASE: u64 = 1 << 21;
+    pub const MXCSR: u64 = 1 << 22;
+    /// `gdtr_base` and `gdtr_limit`
+    pub const GDTR: u64 = 1 << 23;
+    /// `idtr_base` and `idtr_limit`
+    pub const IDTR: u64 = 1 << 24;
+    pub const TR: u64 = 1 << 25;
+    pub const NONE: u64 = 0;
+}
+
+impl Machine {
+    /// Frame condition: every architectural register field has the same value
+    /// in `self` and in `before`, except the fields selected in `except`
+    /// (an OR of [`field`] constants). `msr_index` is compared always (no
+    /// instruction changes which MSR is watched). Not compared: the scratch
+    /// general purpose registers, `device_in`, `nondet`, the log.
+    pub fn regs_same_except(&self, before: &Machine, except: u64) -> bool {
+        let x = |f: u64| except & f != 0;
+        (x(field::CR0) || self.cr0 == before.cr0)
+            && (x(field::CR2) || self.cr2 == before.cr2)
+            && (x(field::CR3) || self.cr3 == before.cr3)
+            && (x(field::CR4) || self.cr4 == before.cr4)
+            && (x(field::DR0) || self.dr0 == before.dr0)
+            && (x(field::DR1) || self.dr1 == before.dr1)
+            && (x(field::DR2) || self.dr2 == before.dr2)
+            && (x(field::DR3) || self.dr3 == before.dr3)
+            && (x(field::DR6) || self.dr6 == before.dr6)
+            && (x(field::DR7) || self.dr7 == before.dr7)
+            && (x(field::XCR0) || self.xcr0 == before.xcr0)
+            && self.msr_index == before.msr_index
+            && (x(field::MSR) || self.msr_value == before.msr_value)
+            && (x(field::RFLAGS) || self.rflags == before.rflags)
+            && (x(field::CS) || self.cs == before.cs)
+            && (x(field::SS) || self.ss == before.ss)
+            && (x(field::DS) || self.ds == before.ds)
+            && (x(field::ES) || self.es == before.es)
+            && (x(field::FS) || self.fs == before.fs)
+            && (x(field::GS) || self.gs == before.gs)
+            && (x(field::FS_BASE) || self.fs_base == before.fs_base)
+            && (x(field::GS_BASE) || self.gs_base == before.gs_base)
+            && (x(field::KERNEL_GS_BASE) || self.kernel_gs_base == before.kernel_gs_base)
+            && (x(field::MXCSR) || self.mxcsr == before.mxcsr)
+            && (x(field::GDTR)
+                || (self.gdtr_base == before.gdtr_base && self.gdtr_limit == before.gdtr_limit))
+            && (x(field::IDTR)
+                || (self.idtr_base == before.idtr_base && self.idtr_limit == before.idtr_limit))
+            && (x(field::TR) || self.tr == before.tr)
+    }
+
+    /// The log holds exactly these two events (in this order), nothing
+    /// overflowed and nothing unknown was executed.
+    pub fn only_events_are(&self, e0: (Kind, u64, u64, u64), e1: (Kind, u64, u64, u64)) -> bool {
+        self.log_len == 2
+            && !self.log_overflow
+            && !self.unknown_asm_hit
+            && self.log[0].is(e0.0, e0.1, e0.2, e0.3)
+            && self.log[1].is(e1.0, e1.1, e1.2, e1.3)
+    }
+}
+
+/// Instruction kind that must not execute (see [`set_trap`]).
+pub static mut TRAP_KIND: Kind = Kind::None;
+
+/// Arm the write trap: from now on, executing an instruction of this kind
+/// reaches [`trap_hit`]. Used by "rejected WITHOUT WRITING" harnesses, which
+/// run under `#[kani::should_panic]` and therefore cannot look at the log
+/// after the panic: under Kani `trap_hit` is a check of class `unreachable`
+/// (not `assertion`), so a should_panic harness in which the trapped
+/// instruction executes on any path FAILS ("failures other than panics").
+/// `Kind::None` disarms. Not reset by `reset_symbolic()`.
+pub fn set_trap(kind: Kind) {
+    // SAFETY: single threaded.
+    unsafe { *core::ptr::addr_of_mut!(TRAP_KIND) = kind };
+}
+
+/// Reached when the trapped instruction kind executes.
+#[inline(never)]
+pub fn trap_hit() {
+    #[cfg(kani)]
+    // SAFETY: deliberately "unreachable": Kani reports reaching it as a
+    // failed check of class `unreachable`.
+    unsafe {
+        core::hint::unreachable_unchecked()
+    }
+    #[cfg(not(kani))]
+    panic!("VERIF-TRAP: a trapped instruction kind was executed");
+}
+
+// ---------------------------------------------------------------------------
 // nondeterminism
 
 #[cfg(kani)]
@@ -600,6 +717,12 @@ pub fn begin_block_regs() {
 
 /// Append an event to the log.
 pub fn log(kind: Kind, a: u64, b: u64, c: u64) {
+    // write trap (see `set_trap`); never taken unless a harness armed it
+    // SAFETY: single threaded.
+    let trap = unsafe { *core::ptr::addr_of!(TRAP_KIND) };
+    if trap != Kind::None && trap == kind {
+        trap_hit();
+    }
     let mm = m();
     if mm.log_len < LOG_CAP {
         let i = mm.log_len;
